@@ -148,7 +148,20 @@ def settings_of(b):
                         repr(getattr(sc, "starttime", None)), repr(getattr(sc, "stoptime", None)), repr(getattr(sc, "dt", None)),
                         canon(getattr(model, "points", None)),
                         repr(getattr(model, "starttime", None)), repr(getattr(model, "stoptime", None)), repr(getattr(model, "dt", None)),
-                        tuple(sorted((k, id(v)) for k, v in eqs.items())) if isinstance(eqs, dict) else None))
+                        tuple(sorted((k, id(v)) for k, v in eqs.items())) if isinstance(eqs, dict) else None,
+                        element_texts(model)))
+    return tuple(out)
+
+
+def element_texts(model):
+    """source text of every element's equation (constants, stocks, flows, converters): a served request that
+    alters a constant shows here even if the lambda object's address were reused"""
+    out = []
+    for group in ("constants", "stocks", "flows", "converters"):
+        d = getattr(model, group, None)
+        if isinstance(d, dict):
+            for k, v in sorted(d.items()):
+                out.append((group, k, repr(getattr(v, "function_string", None))))
     return tuple(out)
 
 
@@ -205,6 +218,7 @@ class World:
         self.app = build_app(token, self.dir)
         self.client = self.app.test_client()
         self.ids = {"UNKNOWN": "0123456789abcdef0123456789abcdef"}
+        self.server = None
         H = auth_hdr(token) if token is not None else {}
         c = self.client
         def start():
@@ -236,15 +250,20 @@ class World:
     def id_names(self):
         return ["UNKNOWN", "STORED"] + (["SESSION", "IDLE"] if "SESSION" in self.ids else [])
 
-    def request(self, rule, method, id_name, hdr, body, slash=False):
-        """hdr: None (absent) or the header text.  Returns (status, reached, change-list)."""
+    def path_of(self, rule, id_name, slash=False):
         path = rule
         if "<path:filename>" in path:
             path = path.replace("<path:filename>", "x.txt")
         path = re.sub(r"<[^>]*>", self.ids[id_name], path)
         if slash and not path.endswith("/"):
             path += "/"
-        headers = {} if hdr is None else {"Authorization": hdr}
+        return path
+
+    def request(self, rule, method, id_name, hdr, body, slash=False, lines=None):
+        """hdr: None (absent) or the header text; `lines`: instead, a list of (field name, value) header lines.
+        Returns (status, reached, change-list)."""
+        path = self.path_of(rule, id_name, slash)
+        headers = list(lines) if lines is not None else ({} if hdr is None else {"Authorization": hdr})
         kw = {"json": body} if body is not None else {}
         self.reach.hit = False
         try:
@@ -259,8 +278,42 @@ class World:
         after = snapshot(self.app, self.dir)
         return status, self.reach.hit, describe_change(self.base, after)
 
+    def raw_request(self, rule, method, id_name, wire_lines, body):
+        """the same request over a real socket to werkzeug's WSGI server (HTTP parsing, header folding, joining
+        of repeated lines happen there); `wire_lines`: the header lines as bytes, exactly as sent."""
+        import socket, threading
+        if self.server is None:
+            from werkzeug.serving import make_server
+            self.server = make_server("127.0.0.1", 0, self.app, threaded=False)
+            self.server_thread = threading.Thread(target=self.server.serve_forever, kwargs={"poll_interval": 0.02}, daemon=True)
+            self.server_thread.start()
+        payload = b"" if body is None else json.dumps(body).encode()
+        msg = (method + " " + self.path_of(rule, id_name) + " HTTP/1.1\r\nHost: localhost\r\nConnection: close\r\n").encode()
+        if body is not None:
+            msg += b"Content-Type: application/json\r\n"
+        msg += b"Content-Length: %d\r\n" % len(payload)
+        msg += b"".join(l + b"\r\n" for l in wire_lines) + b"\r\n" + payload
+        self.reach.hit = False
+        sk = socket.create_connection(("127.0.0.1", self.server.server_port), timeout=30)
+        try:
+            sk.sendall(msg)
+            buf = b""
+            while True:
+                d = sk.recv(65536)
+                if not d:
+                    break
+                buf += d
+        finally:
+            sk.close()
+        m = re.match(rb"HTTP/1\.[01] (\d{3})", buf)
+        status = int(m.group(1)) if m else 599
+        after = snapshot(self.app, self.dir)
+        return status, self.reach.hit, describe_change(self.base, after)
+
     def close(self):
         self.reach.close()
+        if self.server is not None:
+            self.server.shutdown(); self.server_thread.join(5); self.server.server_close(); self.server = None
         for v in list(self.app._instance_manager._instances.values()):
             try:
                 v["instance"].destroy()
@@ -270,12 +323,22 @@ class World:
 
 
 # ------------------------------------------------------------------ credential shapes
-def shapes(tok=TOKEN):
-    """(name, header text or None, presents?)  — `presents` by the reading of DESIGN §7 C15: the second
-    space-separated word equals the token."""
+def flip(ch):
+    return "x" if ch != "x" else "y"
+
+
+def shapes(tok=TOKEN, quick=False):
+    """(name, header text or None)  — whether a shape presents the token is decided by `presents_ref` (reading
+    of DESIGN §7 C15: the second space-separated word equals the token)."""
     sw = tok.swapcase()
     import base64
-    return [
+    n = len(tok)
+    ks = sorted({1, n // 2, n - 2} if quick else set(range(1, n - 1)))     # k = 0 and n-1 are in the base list
+    w2 = [("prefix-%d" % k, "Bearer " + tok[:k]) for k in ks if 0 < k < n - 1]
+    w2 += [("first-char-alone", tok[:1]), ("suffix-long", "Bearer " + tok + tok), ("suffix-of-token", "Bearer " + tok[1:]),
+           ("same-length-first", "Bearer " + flip(tok[0]) + tok[1:]), ("same-length-last", "Bearer " + tok[:-1] + flip(tok[-1])),
+           ("double-space-prefix", "Bearer  " + tok[:1])]
+    return w2 + [
         ("absent", None), ("empty", ""), ("scheme-only", "Bearer"), ("token-alone", tok),
         ("empty-credentials", "Bearer "), ("wrong", "Bearer not-the-token"), ("prefix", "Bearer " + tok[:-1]),
         ("suffix-extended", "Bearer " + tok + "x"), ("prefix-extended", "Bearer x" + tok), ("case-variant", "Bearer " + sw),
@@ -297,6 +360,107 @@ def presents_ref(hdr, tok):
 
 def enc(s):
     return "e" if s == "" else ".".join(str(ord(c)) for c in s)
+
+
+# ------------------------------------------------------------------ probe: the credential comparison
+EXPECTED_TOKENS = [TOKEN, "a", "ab", "aaaa", "Tok-1.2_3", "t\u00f6k\u00e9n", ""]
+
+
+def presented_for(e):
+    """credential words tried against the configured token `e`: every proper prefix (the empty word included),
+    `e` itself, extensions, one-character words, same-length words differing in the first / last character,
+    case variant, suffixes, reversal."""
+    ps = [e[:k] for k in range(len(e))] + [e, e + "x", e + e, e + e[:1], "x" + e, e[1:], e[::-1], e.swapcase(), "x", "not-the-token"]
+    if e:
+        ps += [flip(e[0]) + e[1:], e[:-1] + flip(e[-1]), e[:1], e[-1:], e[:1] * len(e)]
+    out = []
+    for p in ps:
+        if p not in out and " " not in p:
+            out.append(p)
+    return out
+
+
+def probe_compare():
+    """(presented, expected, accepted?) triples from the real decorator: a server configured with `expected`,
+    `GET <protected rule>` with `Authorization: "Bearer " + presented` through the test client; accepted = the
+    view's inner function was entered."""
+    from BPTK_Py.server import BptkServer
+    triples = []
+    for e in EXPECTED_TOKENS:
+        app = BptkServer("c15cmp", factory, None, e)
+        app.logger.disabled = True
+        reach = Reach(app)
+        try:
+            c = app.test_client()
+            for p in presented_for(e):
+                reach.hit = False
+                try:
+                    r = c.get("/scenarios", headers={"Authorization": "Bearer " + p})
+                    st = r.status_code
+                    r.close()
+                except Exception:
+                    st = 599
+                triples.append((p, e, bool(reach.hit), st))
+        finally:
+            reach.close()
+    return triples
+
+
+def lean_chars(s):
+    return "[" + ", ".join("Char.ofNat %d" % ord(c) for c in s) + "]"
+
+
+# ------------------------------------------------------------------ header LINES (duplicates, field-name case, blanks)
+def header_line_cases(tok=TOKEN):
+    """(name, [(field name, value)], wire lines or None).  `wire lines` (bytes) when the socket form differs
+    from one line per pair (obs-fold); ASCII only."""
+    A = "Authorization"
+    cs = [
+        ("dup-same", [(A, "Bearer " + tok), (A, "Bearer " + tok)]),
+        ("dup-wrong-then-right", [(A, "Bearer wrong"), (A, "Bearer " + tok)]),
+        ("dup-right-then-wrong", [(A, "Bearer " + tok), (A, "Bearer wrong")]),
+        ("dup-split-scheme-token", [(A, "Bearer"), (A, tok)]),
+        ("dup-right-then-empty", [(A, "Bearer " + tok), (A.lower(), "")]),
+        ("dup-empty-then-right", [(A, ""), (A, "Bearer " + tok)]),
+        ("dup-empty-empty", [(A, ""), (A, "")]),
+        ("dup-prefix-then-rest", [(A, "Bearer " + tok[:4]), (A, tok[4:])]),
+        ("triple-mixed-case", [(A, "Bearer wrong"), (A.lower(), "Bearer " + tok), (A.upper(), "x")]),
+        ("name-lower", [(A.lower(), "Bearer " + tok)]),
+        ("name-upper", [(A.upper(), "Bearer " + tok)]),
+        ("name-mixed-wrong", [("aUtHoRiZaTiOn", "Bearer " + tok[:-1])]),
+        ("name-upper-wrong", [(A.upper(), "Bearer not-the-token")]),
+        ("name-underscore", [(A + "_", "Bearer " + tok)]),
+        ("name-x-prefix", [("X-" + A, "Bearer " + tok)]),
+        ("name-proxy", [("Proxy-" + A, "Bearer " + tok)]),
+        ("name-other-plus-wrong", [("X-" + A, "Bearer " + tok), (A, "Bearer wrong")]),
+        ("lead-blanks", [(A, "  Bearer " + tok)]),
+        ("lead-tab", [(A, "\tBearer " + tok)]),
+        ("lead-blank-token-only", [(A, " " + tok)]),
+        ("lead-blanks-wrong", [(A, "   Bearer wrong")]),
+        ("trail-blanks", [(A, "Bearer " + tok + "  ")]),
+        ("trail-tab", [(A, "Bearer " + tok + "\t")]),
+        ("inner-tab", [(A, "Bearer\t" + tok)]),
+        ("inner-double", [(A, "Bearer  " + tok)]),
+        ("only-blanks", [(A, "   ")]),
+        ("empty-value", [(A, "")]),
+    ]
+    out = [(n, l, None) for n, l in cs]
+    out.append(("obs-fold-blank", [(A, "Bearer " + tok)], [b"Authorization: Bearer", b" " + tok.encode()]))
+    out.append(("obs-fold-tab", [(A, "Bearer\t" + tok)], [b"Authorization: Bearer", b"\t" + tok.encode()]))
+    out.append(("obs-fold-wrong", [(A, "Bearer " + tok[:-1] + " " + tok)], [b"Authorization: Bearer " + tok[:-1].encode(), b" " + tok.encode()]))
+    return out
+
+
+def combined_ref(lines, transport):
+    """value of request.headers["Authorization"] by RFC 9110 §5.2/§5.3 as the two gateways implement it (written
+    independently of the Lean model): field names case-insensitive, repeated lines joined in order."""
+    vals = [v for n, v in lines if n.lower() == "authorization"]
+    if not vals:
+        return None
+    if transport == "ws":
+        vals = [v.lstrip(" \t") for v in vals]
+        return ",".join(vals)
+    return ", ".join(vals)
 
 
 # ------------------------------------------------------------------ probe: the route table
@@ -344,7 +508,7 @@ def route_ok(r, static_files):
     return r["rule"] in PUBLIC or ((not static_files) if r["static"] else r["prot"])
 
 
-def gen_lean(table, static_files):
+def gen_lean(table, static_files, triples=()):
     rows = ",\n    ".join(
         "{ rule := %s, methods := [%s], prot := %s, autoOptions := %s, static := %s }" % (
             lean_str(r["rule"]), ", ".join(lean_str(m) for m in r["methods"]),
@@ -360,7 +524,7 @@ def gen_lean(table, static_files):
     body, verdict = "", {}
     if all_ok and auto_at is None:
         body = "theorem holds : C15_full table := C15_full_of_good table (by decide) (by decide)\n#print axioms holds\n"
-        verdict = {"full": True}
+        verdict = {"full": True, "all_protected": True, "auto_options_at": None, "unprotected": None}
     else:
         if all_ok:
             body += "theorem holds_but_options : C15_but_options table := C15_partial table (by decide)\n#print axioms holds_but_options\n"
@@ -373,6 +537,45 @@ def gen_lean(table, static_files):
             body += (f"theorem violated_unprotected : ¬ C15_full table := C15_witness_unprotected table {unprot[0]} {lean_str(unprot[1])} (by decide)\n"
                      "#print axioms violated_unprotected\n")
         verdict = {"full": False, "all_protected": all_ok, "auto_options_at": auto_at, "unprotected": unprot}
+    # ---- the comparison observed on the real decorator
+    obs_rows = ",\n    ".join("(%s, %s, %s)" % (lean_chars(p), lean_chars(e), str(bool(v)).lower()) for p, e, v, _ in triples)
+    cmp_ok = all(bool(v) == (p == e) for p, e, v, _ in triples)
+    verdict["compare_is_equality"] = cmp_ok
+    body += "def obs : Obs := [\n    " + obs_rows + " ]\ndef cfg : Cfg := { table := table, obs := obs }\n"
+    if cmp_ok:
+        body += ("theorem compare_is_equality : compareIsEquality obs = true := by decide +kernel\n"
+                 "theorem decorator_exact (h τ : List Char) : authOKW (cmpOf obs) (some h) τ = .accept ↔ word2 h = some τ :=\n"
+                 "  auth_exact_obs obs compare_is_equality h τ\n"
+                 "theorem fullC_iff : C15_fullC cfg ↔ C15_full table := C15_fullC_iff cfg compare_is_equality\n"
+                 "#print axioms compare_is_equality\n#print axioms decorator_exact\n#print axioms fullC_iff\n")
+        if verdict.get("full"):
+            body += "theorem holdsC : C15_fullC cfg := C15_fullC_of_good cfg (by decide) (by decide) compare_is_equality\n#print axioms holdsC\n"
+        else:
+            if all_ok:
+                body += ("theorem holds_but_optionsC : C15_but_optionsW table (cmpOf obs) := C15_partialC cfg (by decide) compare_is_equality\n"
+                         "#print axioms holds_but_optionsC\n")
+            if auto_at is not None:
+                body += "theorem violatedC_auto_options : ¬ C15_fullC cfg := fun h => violated_auto_options (fullC_iff.mp h)\n#print axioms violatedC_auto_options\n"
+            elif unprot is not None:
+                body += "theorem violatedC_unprotected : ¬ C15_fullC cfg := fun h => violated_unprotected (fullC_iff.mp h)\n#print axioms violatedC_unprotected\n"
+    else:
+        verdict["full"] = False
+        body += "theorem compare_not_equality : compareIsEquality obs = false := by decide +kernel\n#print axioms compare_not_equality\n"
+        wrong = [(p, e) for p, e, v, _ in triples if v and p != e]
+        wrong.sort(key=lambda pe: (not pe[1].startswith(pe[0]), pe[1] != TOKEN, len(pe[0])))   # a proper prefix first
+        tgt = None
+        for i, r in enumerate(table):
+            if r["rule"] not in PUBLIC and not r["static"] and r["prot"]:
+                ms = [m for m in r["methods"] if not (m == "OPTIONS" and r["auto"])]
+                if ms:
+                    tgt = (i, ms[0]); break
+        verdict["wrongly_accepted"] = [list(x) for x in wrong[:8]]
+        verdict["wrongly_refused"] = [[p, e] for p, e, v, _ in triples if not v and p == e][:8]
+        if wrong and tgt is not None:
+            p0, e0 = wrong[0]
+            body += (f"theorem violated_compare : ¬ C15_fullC cfg :=\n  C15_witness_compare cfg {tgt[0]} {lean_str(tgt[1])} {lean_chars(p0)} {lean_chars(e0)} (by decide +kernel)\n"
+                     "#print axioms violated_compare\n")
+            verdict["compare_witness"] = {"presented": p0, "expected": e0, "rule": table[tgt[0]]["rule"], "method": tgt[1]}
     text = ("import Bptk.Props.C15\n/-! GENERATED by harness/props/c15.py from the live Flask app of /repo on every run — do not edit. -/\n"
             "namespace Bptk.C15.Gen\n"
             "def table : Table :=\n  { routes := [\n    " + rows + " ],\n    staticFiles := [" + ", ".join(lean_str(f) for f in static_files) + "] }\n"
@@ -383,7 +586,7 @@ def gen_lean(table, static_files):
 # ------------------------------------------------------------------ correspondence + reference check
 def case_plan(chk, table, world):
     """All (rule index, method, id name, shape, body?, slash?) for one server state."""
-    sh = shapes()
+    sh = shapes(quick=chk.quick)
     plan = []
     for i, r in enumerate(table):
         idns = world.id_names() if ("<" in r["rule"] and not r["static"]) else ["UNKNOWN"]
@@ -436,6 +639,81 @@ def fuzz_headers(rng, n, tok=TOKEN):
     return out
 
 
+def header_line_stream(chk, w, state, table, out):
+    """duplicate Authorization lines, field names in other cases, blanks — through werkzeug's test client (`tc`)
+    and over a socket through werkzeug's WSGI server (`ws`).  Returns the (possibly rebuilt) world."""
+    req_lines, real_lines, ctx, findings, dist = out
+    targets = [("/scenarios", "GET", "UNKNOWN"), ("/start-instance", "POST", "UNKNOWN"), ("/<instance_uuid>/run-step", "POST", "SESSION"),
+               ("/<instance_uuid>/begin-session", "POST", "STORED")]
+    if chk.quick:
+        targets = targets[:3]
+    n = 0
+    for rule, m, idn in targets:
+        ti = next((j for j, r in enumerate(table) if r["rule"] == rule and m in r["methods"]), None)
+        if ti is None:
+            continue
+        for name, lines, wire in header_line_cases():
+            for tr in ("tc", "ws"):
+                if tr == "tc" and wire is not None:
+                    continue            # folding exists on the wire only
+                body = UNION_BODY if m != "GET" else None
+                if tr == "tc":
+                    status, reached, changes = w.request(rule, m, idn, None, body, lines=lines)
+                else:
+                    wl = wire if wire is not None else [(k + ": " + v).encode("latin-1") for k, v in lines]
+                    status, reached, changes = w.raw_request(rule, m, idn, wl, body)
+                n += 1
+                comb = combined_ref(lines, tr)
+                # lenient reading for the reference check: the value the decorator sees presents the token, or one
+                # of the lines alone does (a client that knows the token) — refusing those is never required
+                pres = presents_ref(comb, TOKEN) or any(presents_ref(v.strip(" \t"), TOKEN) for k, v in lines if k.lower() == "authorization")
+                req_lines.append("reqh %d %s %s e %s" % (ti, m, tr, " ".join(enc(k) + " " + enc(v) for k, v in lines)))
+                real_lines.append("view" if reached else str(status))
+                case = {"state": state, "rule": rule, "method": m, "instance": idn, "shape": "lines:" + name, "transport": tr,
+                        "header_lines": [list(x) for x in lines], "wire": [x.decode("latin-1") for x in wire] if wire else None,
+                        "header": comb, "body": body is not None, "trailing_slash": False}
+                ctx.append(case)
+                chk.case(("lines", rule, m, name, tr), nontrivial=not pres)
+                dist["by_shape"]["lines-" + tr] = dist["by_shape"].get("lines-" + tr, 0) + 1
+                dist["reached"] += reached
+                dist["refused"] += (not reached and status >= 400)
+                key = classify(rule, m, pres, status, reached, changes)
+                if key and key not in findings:
+                    findings[key] = (f"{m} {rule} (instance {idn}, {'test client' if tr == 'tc' else 'WSGI server over a socket'}) with header lines "
+                                     f"{lines!r} (Authorization as seen: {comb!r}) -> HTTP {status}, view reached: {reached}, state changes: {changes or 'none'}",
+                                     dict(case, status=status, reached=reached, changes=changes, token=TOKEN))
+                if changes:
+                    w.close(); w = World(state); dist["rebuilds"] += 1
+    return w, n
+
+
+CONTROLS = [
+    ("/run", "POST", "UNKNOWN", ["scenario settings of the server-level bptk changed"]),
+    ("/<instance_uuid>/run-step", "POST", "SESSION", ["scenario settings of an instance changed", "session state changed (begun / advanced / ended / locked)",
+                                                       "external state file rewritten"]),
+    ("/<instance_uuid>/run-step", "POST", "STORED", ["instance created", "external state file rewritten"]),
+    ("/<instance_uuid>/begin-session", "POST", "IDLE", ["session state changed (begun / advanced / ended / locked)"]),
+    ("/start-instance", "POST", "UNKNOWN", ["instance created"]),
+    ("/<instance_uuid>/stop-instance", "POST", "SESSION", ["instance removed", "external state file removed"]),
+]
+
+
+def reference_controls(state="live-session"):
+    """Positive controls of the state-equality reference: the SAME requests (bodies with settings) sent WITH the
+    token must show up in the before/after comparison — scenario constants of the server-level bptk and of the
+    instance, session state, content of the external-state files."""
+    res = []
+    for rule, m, idn, expect in CONTROLS:
+        w = World(state)
+        try:
+            status, reached, changes = w.request(rule, m, idn, "Bearer " + TOKEN, UNION_BODY)
+        finally:
+            w.close()
+        res.append({"rule": rule, "method": m, "instance": idn, "status": status, "reached": reached, "changes": changes,
+                    "missing": [e for e in expect if e not in changes]})
+    return res
+
+
 def classify(rule, method, presents, status, reached, changes):
     """Reference check of the statement on one real request. Returns finding key or None."""
     if rule in PUBLIC or presents:
@@ -456,7 +734,11 @@ def run(chk):
     try:
         with contextlib.redirect_stdout(sink):
             table, static_files = probe_table()
-        gen_text, verdict = gen_lean(table, static_files)
+            triples = probe_compare()
+        gen_text, verdict = gen_lean(table, static_files, triples)
+        chk.notes["compare_probe"] = {"triples": len(triples), "expected_tokens": EXPECTED_TOKENS,
+                                      "accepted": sum(1 for t in triples if t[2]),
+                                      "disagreeing_with_equality": [[p, e, v] for p, e, v, _ in triples if bool(v) != (p == e)][:20]}
         chk.notes["route_table"] = [{k: r[k] for k in ("rule", "methods", "prot", "auto", "static")} for r in table]
         chk.notes["static_files"] = static_files
         chk.notes["obligation_selected"] = verdict
@@ -466,10 +748,13 @@ def run(chk):
             "Flask/werkzeug: URL matching, method check (405), automatic OPTIONS, header parsing — modelled by `handle` from the probed table, validated only by the correspondence run",
             "the probe of this module: route table read from app.url_map; a view counts as protected iff a request without Authorization header (sentinel token configured) never enters the view's inner function (sys.monitoring on the code objects behind functools.wraps / closure cells)",
             "views are an arbitrary parameter V of the model: nothing about what a view does once reached is assumed",
+            "the comparison probe: (presented, expected, accepted?) triples from servers configured with 7 tokens (every proper prefix incl. the empty word, extensions, one-character words, same-length variants); the model's comparison is string equality patched by these observations, `compareIsEquality obs` is decided by the kernel",
+            "werkzeug's two gateways (test client: repeated lines joined by ', '; WSGI server over a socket: joined by ',', leading blanks/tabs dropped, obs-fold = concatenation) are modelled by `headerValue` and validated by the correspondence only",
         ]
         chk.assumptions = [
             "reading (DESIGN §7 C15): a request presents the token iff the second space-separated word of its Authorization header equals the token; `Basic tok`, `bearer tok`, `Bearer tok x` are accepted requests",
-            "server-side state compared: _instances (object identity, last-access time, timeout), every session_state, scenario settings (constants, points, run specs, model points, identity of equation lambdas) of every instance and of the server-level bptk, listing + mtime + sha1 of the external state directory",
+            "server-side state compared: _instances (object identity, last-access time, timeout), every session_state, scenario settings (constants, points, run specs, model points, identity of equation lambdas) of every instance and of the server-level bptk, listing + mtime + sha1 of the external state directory; source text of every element equation; positive controls (the same bodies with settings sent WITH the token) must show up in this comparison on every run (notes.state_reference_controls)",
+            "header lines: for the reference check a request given as header lines presents the token iff the joined value does or one Authorization line alone does",
         ]
         req_lines, real_lines, ctx = [], [], []
         req_lines += ["clear", "tok " + enc(TOKEN)]
@@ -480,6 +765,13 @@ def run(chk):
             real_lines.append("ok"); ctx.append(None)
         for f in static_files:
             req_lines.append("static " + enc(f)); real_lines.append("ok"); ctx.append(None)
+        for p_, e_, v_, _ in triples:     # the model's comparison = string equality patched by what was observed
+            req_lines.append("obs %s %s %d" % (enc(p_), enc(e_), v_)); real_lines.append("ok"); ctx.append(None)
+        for p_, e_, v_, st_ in triples:   # reference: the decorator's verdict must be that of string equality
+            if bool(v_) != (p_ == e_) and p_ != e_ and "wrong-credential-accepted" not in findings:
+                findings["wrong-credential-accepted"] = (
+                    f"server configured with bearer token {e_!r}: GET /scenarios with Authorization {'Bearer ' + p_!r} -> HTTP {st_}, view reached",
+                    {"probe": "compare", "expected": e_, "presented": p_, "status": st_, "rule": "/scenarios", "method": "GET"})
         dist = {"by_state": {}, "by_shape": {}, "by_method": {}, "status": {}, "reached": 0, "refused": 0, "rebuilds": 0}
         n_req = 0
         with contextlib.redirect_stdout(sink):
@@ -543,8 +835,16 @@ def run(chk):
                                                      dict(case, status=status, reached=reached, changes=changes, token=TOKEN))
                                 if changes:
                                     w.close(); w = World(state); dist["rebuilds"] += 1
+                        w, k = header_line_stream(chk, w, state, table, (req_lines, real_lines, ctx, findings, dist))
+                        n_req += k
                 finally:
                     w.close()
+            controls = reference_controls()
+        chk.notes["state_reference_controls"] = controls
+        blind = [c for c in controls if c["status"] < 400 and c["missing"]]
+        if blind:
+            findings.setdefault("reference-blind", (
+                "the before/after state comparison does not see what an ACCEPTED request changes: " + json.dumps(blind[0]), {"controls": blind}))
         # pure header stream: Python's own split(" ") against the model's word2 (no server involved)
         rng = chk.rng.fork("c15-split")
         hs = [h for _, h in shapes() if h is not None] + fuzz_headers(rng, 1500 if chk.quick else 20000)
@@ -560,9 +860,9 @@ def run(chk):
         chk.cov["input_distribution"] = dist
         chk.cov["rule"] = ("every rule of app.url_map (%d) x every allowed method incl. HEAD/OPTIONS (+ one disallowed) x %d credential shapes x 3 server "
                            "states (no instance + stored file / live session / locked session) x instance ids {unknown, externalised-only, session, idle} x "
-                           "{union JSON body, no body}%s; plus seeded fuzzed headers against one protected rule and a pure split(\" \") stream; a case is "
+                           "{union JSON body, no body}%s; plus seeded fuzzed headers against one protected rule, a pure split(\" \") stream, 30 header-LINE cases (duplicates, field-name case, blanks, obs-fold) x 3-4 rules x {test client, WSGI server over a socket}, and the comparison probe (105 triples); a case is "
                            "(state, rule, method, id, shape, body); non-trivial = does not present the token and rule not public"
-                           % (len(table), len(shapes()), "" if chk.quick else " x trailing-slash variant"))
+                           % (len(table), len(shapes(quick=chk.quick)), "" if chk.quick else " x trailing-slash variant"))
         chk.cov["exhaustive"] = True
         diff = next((i for i, (a, b) in enumerate(zip(model, real_lines)) if a != b), None)
         if diff is None and len(model) != len(real_lines):
@@ -596,6 +896,21 @@ def run(chk):
 def replay(path):
     quiet_bptk_logging()
     r = json.load(open(path))["replay"]
+    if r.get("probe") == "compare":
+        from BPTK_Py.server import BptkServer
+        sink = io.StringIO()
+        try:
+            with contextlib.redirect_stdout(sink):
+                app = BptkServer("c15cmp", factory, None, r["expected"])
+                app.logger.disabled = True
+                resp = app.test_client().get("/scenarios", headers={"Authorization": "Bearer " + r["presented"]})
+                st = resp.status_code
+        finally:
+            destroy_all()
+        bad = st < 400 and r["presented"] != r["expected"]
+        print(f"token {r['expected']!r} configured, GET /scenarios with Authorization {'Bearer ' + r['presented']!r}: HTTP {st} -> "
+              + ("served without the token" if bad else "refused correctly"))
+        return 1 if bad else 0
     if "rule" not in r:
         print("replay file names a theorem / correspondence, no concrete request:", json.dumps(r)[:600])
         return 1
@@ -604,8 +919,14 @@ def replay(path):
         with contextlib.redirect_stdout(sink):
             w = World(r["state"], token=r.get("token", TOKEN))
             try:
-                status, reached, changes = w.request(r["rule"], r["method"], r["instance"], r["header"],
-                                                     UNION_BODY if r.get("body") else None, r.get("trailing_slash", False))
+                body = UNION_BODY if r.get("body") else None
+                if r.get("transport") == "ws":
+                    wl = [x.encode("latin-1") for x in r["wire"]] if r.get("wire") else [(k + ": " + v).encode("latin-1") for k, v in r["header_lines"]]
+                    status, reached, changes = w.raw_request(r["rule"], r["method"], r["instance"], wl, body)
+                elif r.get("header_lines") is not None:
+                    status, reached, changes = w.request(r["rule"], r["method"], r["instance"], None, body, lines=[tuple(x) for x in r["header_lines"]])
+                else:
+                    status, reached, changes = w.request(r["rule"], r["method"], r["instance"], r["header"], body, r.get("trailing_slash", False))
             finally:
                 w.close()
     finally:
